@@ -8,24 +8,26 @@ From Coq Require Import ZArith.
 From TL Require Import Lib.Base Lib.GenTypes Gen.MagicGen Model.MagicNum Model.Magic Model.MagicSpec Actual.MagicActual
      Proofs.MagicChars Proofs.MagicExtract Proofs.MagicFacts Proofs.MagicTs Proofs.MagicRs Proofs.MagicPy Proofs.MagicMain.
 
-(* 1. Exactness, per language: for every quirk vector whose language flags are off, every configuration
-      (allowed_numbers, max_small_integer, or the defaults) and every admissible file, the reported list is
-      exactly the demanded one (same entries, same multiplicities, same order). *)
+(* 1. Exactness, per language: for every quirk vector whose still-open language flags are off, every configuration
+      (allowed_numbers, max_small_integer, per-language sections, or the defaults) and every admissible file, the
+      reported list is exactly the demanded one (same entries, same multiplicities, same order).
+      The flags q_py_bool_is_number, q_ts_hex_e_float, q_ts_bigint_dropped and q_rs_hex_suffix_clash are no longer
+      hypotheses: with them on, the model uses the tables found in the (repaired) source, and the statement covers that. *)
 Theorem C02_py_report_exact : forall q cfg f,
-  q_py_bool_is_number q = false -> q_py_upper_neg_flagged q = false -> q_py_upper_ann_flagged q = false ->
+  q_py_upper_neg_flagged q = false -> q_py_upper_ann_flagged q = false ->
   q_py_upper_tuple_flagged q = false -> file_good MPy f = true ->
   report MPy q cfg f = spec_report MPy cfg f.
 Proof. exact py_report_exact. Qed.
 Print Assumptions C02_py_report_exact.
 
 Theorem C02_ts_report_exact : forall q cfg f,
-  q_ts_hex_e_float q = false -> q_ts_bigint_dropped q = false -> q_ts_test_marker_anywhere q = false ->
+  q_ts_test_marker_anywhere q = false ->
   file_good MTs f = true -> report MTs q cfg f = spec_report MTs cfg f.
 Proof. exact ts_report_exact. Qed.
 Print Assumptions C02_ts_report_exact.
 
 Theorem C02_rs_report_exact : forall q cfg f,
-  q_rs_hex_suffix_clash q = false -> file_good MRs f = true -> report MRs q cfg f = spec_report MRs cfg f.
+  file_good MRs f = true -> report MRs q cfg f = spec_report MRs cfg f.
 Proof. exact rs_report_exact. Qed.
 Print Assumptions C02_rs_report_exact.
 
@@ -75,13 +77,13 @@ Print Assumptions C02_report_only_numeric.
 (* 6. extract_total: the text-level value extraction of the TypeScript and the Rust analyzer reads every literal of the
       documented grammar (decimal, hex / octal / binary, underscore-separated, suffixed, BigInt, floats with exponent)
       as its value. *)
-Theorem C02_ts_extract_total : forall l raw,
-  lit_ok MTs l = true -> lit_raw l = Some raw -> ts_extract false false (lit_chars l) = Some raw.
+Theorem C02_ts_extract_total : forall from_code_prefixes from_code_suffix l raw,
+  lit_ok MTs l = true -> lit_raw l = Some raw -> ts_extract from_code_prefixes from_code_suffix (lit_chars l) = Some raw.
 Proof. exact ts_extract_total. Qed.
 Print Assumptions C02_ts_extract_total.
 
-Theorem C02_rs_extract_total : forall l raw,
-  lit_ok MRs l = true -> lit_raw l = Some raw -> rs_extract false (rs_node_type l) (lit_chars l) = Some raw.
+Theorem C02_rs_extract_total : forall from_code_table l raw,
+  lit_ok MRs l = true -> lit_raw l = Some raw -> rs_extract from_code_table (rs_node_type l) (lit_chars l) = Some raw.
 Proof. exact rs_extract_total. Qed.
 Print Assumptions C02_rs_extract_total.
 
@@ -92,7 +94,9 @@ Proof. exact small_int_monotone. Qed.
 Print Assumptions C02_small_int_monotone.
 
 (* 8. The faithful model (every flag as claimed for the current tree) is exact on every admissible file outside the
-      listed defect classes (partial: the full statements are 1). *)
+      defect classes that are still open: Python UPPER_CASE definitions through a minus / annotation / tuple, and
+      TypeScript paths on which the substring test and the documented test-file rule differ (partial: the full statements
+      are 1; for Rust there is no restriction left, see C02_rs_report_exact). *)
 Theorem C02_actual_partial : forall lg cfg f,
   file_good lg f = true -> file_plain lg magic_actual f = true -> report lg magic_actual cfg f = spec_report lg cfg f.
 Proof. intros lg cfg f. exact (report_guarded lg magic_actual cfg f). Qed.
